@@ -1262,6 +1262,19 @@ def unkspans(ctx):
                 k -= 1
             ok = opn in ("Ge", "Gt")
         lim_txt = rt if run_side == "l" else lt
+        lim_e = strip_casts(e[3] if run_side == "l" else e[2])
+        while lim_e[0] == "binop" and lim_e[1] in ("Add", "Sub", "AddWithOverflow", "SubWithOverflow"):
+            lim_e = strip_casts(lim_e[2] if strip_casts(lim_e[3])[0] == "const" else lim_e[3])
+        if lim_e[0] == "phi":
+            # `match max_grouping_len { Some(l) => l, None => MAX }`: one value per arm
+            vals = []
+            for d in fa.defs().get(lim_e[1], []):
+                if d[2] == "assign" and d[3]["k"] == "use":
+                    vals.append(show(S.operand(d[3]["op"])))
+                else:
+                    vals.append("?")
+            if len(vals) == 2 and any("arg5" in v for v in vals) and any(v.isdigit() for v in vals):
+                lim_txt = "unwrap_or(%s, %s)" % ([v for v in vals if "arg5" in v][0], [v for v in vals if v.isdigit()][0])
         oklim = "map_or" in lim_txt or "unwrap_or" in lim_txt or "arg5" in lim_txt
         good = ok and k == 1 and oklim
         ctx.ob("UNKSPAN", "grouped-candidate-limited", good, fa.loc(b),
